@@ -296,6 +296,24 @@ fn inline_data(rng: &mut Rng, text: &str) -> Option<(String, String)> {
     Some((lines.join("\n"), format!("inline-data/{}", name)))
 }
 
+/// a consistent renaming of one public identifier (every occurrence of the quoted string) to a long one of multi-byte
+/// characters: the document stays as valid as it was, but few byte positions inside it are character boundaries
+fn rename_nonascii(rng: &mut Rng, text: &str) -> Option<String> {
+    let ids: Vec<String> = text
+        .lines()
+        .filter_map(|l| ["@id", "resource", "annotation", "set", "key", "dataset"].iter().find_map(|f| l.trim().strip_prefix(&format!("\"{}\": \"", f))))
+        .map(|r| r.trim_end_matches(',').trim_end_matches('"').to_string())
+        .filter(|s| !s.is_empty() && !s.contains('\\') && !s.starts_with('!'))
+        .collect();
+    if ids.is_empty() {
+        return None;
+    }
+    let old = ids[rng.below(ids.len())].clone();
+    let unit = *rng.pick(&["\u{e9}", "\u{65e5}", "\u{1d11e}", "\u{65e5}\u{e9}x"]);
+    let new = format!("{}{}", "x".repeat(rng.below(4)), unit.repeat(rng.range(8, 48) as usize));
+    Some(text.replace(&format!("\"{}\"", old), &format!("\"{}\"", new)))
+}
+
 fn mutate_json(rng: &mut Rng, text: &str) -> (String, String) {
     let mut lines: Vec<String> = text.lines().map(|s| s.to_string()).collect();
     if lines.is_empty() {
@@ -602,8 +620,11 @@ fn gen_inputs(p: &Params, rng: &mut Rng, k: u64, out: &mut Vec<Input>) {
         let mut f = BTreeMap::new();
         f.insert("s.store.stam.json".to_string(), text.clone());
         out.push(Input { kind: "json-store".into(), mutation: "valid".into(), files: f, main: "s.store.stam.json".into() });
-        for _ in 0..per_format {
-            let (m, name) = mutate_json(rng, &text);
+        for k in 0..per_format {
+            // every fourth: one identifier renamed to multi-byte characters first
+            let renamed = if k % 4 == 3 { rename_nonascii(rng, &text) } else { None };
+            let (m, name) = mutate_json(rng, renamed.as_deref().unwrap_or(&text));
+            let name = if renamed.is_some() { format!("non-ascii-id+{}", name) } else { name };
             let mut f = BTreeMap::new();
             f.insert("s.store.stam.json".to_string(), m);
             out.push(Input { kind: if rng.chance(1, 6) { "json-store-file".into() } else { "json-store".into() }, mutation: name, files: f, main: "s.store.stam.json".into() });
@@ -627,8 +648,10 @@ fn gen_inputs(p: &Params, rng: &mut Rng, k: u64, out: &mut Vec<Input>) {
             if let Some(anns) = doc["annotations"].as_array() {
                 if let Some(a) = anns.first() {
                     let t = serde_json::to_string_pretty(a).unwrap_or_default();
-                    for _ in 0..3 {
-                        let (m, name) = mutate_json(rng, &t);
+                    for k in 0..6 {
+                        let renamed = if k >= 3 { rename_nonascii(rng, &t) } else { None };
+                        let (m, name) = mutate_json(rng, renamed.as_deref().unwrap_or(&t));
+                        let name = if renamed.is_some() { format!("non-ascii-id+{}", name) } else { name };
                         let mut f = BTreeMap::new();
                         f.insert("a.json".to_string(), m);
                         out.push(Input { kind: "annotation-json".into(), mutation: name, files: f, main: "a.json".into() });
